@@ -3,19 +3,34 @@
    - movement with collision fixing: an agent gets the cell it legally moves to unless another agent legally moves to the same
      cell; agents moving to the same cell ALL stay; everybody else stays;
    - loading: an uneaten food is eaten iff the sum of the levels of the 4-adjacent agents playing LOAD reaches its level;
-   - successor state, step type and discount of step and ref_step coincide on every physically consistent state and every
-     in-spec joint action;
-   - reward: every per-food, per-agent entry: the food's level split proportionally to the loaders' levels (normalised by the
-     total food level), the penalty for an insufficient load, nothing otherwise.
-   The equality of the reward VECTORS of step and ref_step is correspondence-checked by the harness (not proved). *)
+   - reward: for every agent the sum over the foods of: level_a * food_level for the adjacent loaders of a food eaten in this
+     step (divided by sum of the loaders' levels * total food level when normalising: a split proportional to level), minus
+     the penalty (divided by the same normaliser) charged to EVERY agent for a food loaded by an insufficient positive level,
+     nothing for a food already eaten or loaded by nobody;
+   - successor state, step type, discount AND the reward vector of step and ref_step coincide on every physically consistent
+     state and every in-spec joint action.  Rewards are exact rationals: equality is Qeq entry by entry, hence Leibniz
+     equality of the reduced fractions (the wire format of lbf_step_io / lbf_ref_io); the integer reward code carried by the
+     shared timestep record (the numerator) is zero in the same entries. *)
 From Coq Require Import QArith.
-Require Import JV.Base.Prelude JV.Base.JaxIndex JV.Base.Codec JV.Base.TimeStep JV.Model.Lbf JV.Proofs.Lbf JV.Proofs.Lbf_Reward JV.Proofs.Lbf_Rules.
+Require Import JV.Base.Prelude JV.Base.JaxIndex JV.Base.Codec JV.Base.TimeStep JV.Model.Lbf JV.Proofs.Lbf JV.Proofs.Lbf_Reward JV.Proofs.Lbf_Rules JV.Proofs.Lbf_RefReward.
 Open Scope Z_scope.
-Theorem C09_Lbf_ref_step_state_agrees_partial c s acts :
+Theorem C09_Lbf_ref_step_agrees c s acts :
   Inv c s -> zlen acts = nag c -> Forall (fun k => 0 <= k <= 5) acts ->
-  let '(s', t, _) := ref_step c s acts in
-  s' = fst (step c s acts) /\ st t = st (snd (step c s acts)) /\ discount t = discount (snd (step c s acts)).
-Proof. exact (ref_step_state_agrees c s acts). Qed.
+  let '(s', t, rw) := ref_step c s acts in
+  s' = fst (step c s acts) /\ st t = st (snd (step c s acts)) /\ discount t = discount (snd (step c s acts))
+  /\ Forall2 Qeq rw (step_rewards c s acts)
+  /\ map Qred rw = map Qred (step_rewards c s acts).
+Proof. exact (ref_step_agrees c s acts). Qed.
+Theorem C09_Lbf_reward_code_zero_iff c s acts :
+  Inv c s -> zlen acts = nag c -> Forall (fun k => 0 <= k <= 5) acts ->
+  Forall2 (fun x y => x = 0 <-> y = 0) (reward (snd (fst (ref_step c s acts)))) (reward (snd (step c s acts))).
+Proof. exact (reward_code_zero_iff c s acts). Qed.
+(* the reward vector alone, for ANY agent list (no invariant needed) and foods of positive level *)
+Theorem C09_Lbf_rewards_ref c ags fs :
+  Forall (fun f => 1 <= flvl f) fs ->
+  Forall2 Qeq (rewards c ags fs)
+              (map (fun a => qsum (map (fun f => ref_reward_food c (zsum (map flvl fs)) ags f a) fs)) ags).
+Proof. exact (rewards_ref c ags fs). Qed.
 Theorem C09_Lbf_movement_rule c s acts :
   Inv c s -> zlen acts = nag c -> Forall (fun k => 0 <= k <= 5) acts -> ref_agents (gsz c) s acts = step_agents c s acts.
 Proof. exact (ref_agents_agree c s acts). Qed.
@@ -31,7 +46,9 @@ Theorem C09_Lbf_share_rule c lt ags f :
   food_reward c lt ags f
   = map (fun l => let r := (zq (l * 1 * flvl f) - 0)%Q in if norm c then (r / zq (zsum (adj_levels ags f) * lt))%Q else r) (adj_levels ags f).
 Proof. exact (share_rule c lt ags f). Qed.
-Print Assumptions C09_Lbf_ref_step_state_agrees_partial.
+Print Assumptions C09_Lbf_ref_step_agrees.
+Print Assumptions C09_Lbf_reward_code_zero_iff.
+Print Assumptions C09_Lbf_rewards_ref.
 Print Assumptions C09_Lbf_share_rule.
 Example C09_Lbf_nonvacuous :
   (* three agents: 0 and 1 both move to (2,1) and stay; 2 moves freely; then 0 (level 1) and 1 (level 2) load food (1,1) level 3 *)
@@ -44,5 +61,12 @@ Example C09_Lbf_nonvacuous :
       map featen (foods (fst (step c s1 [5; 5; 0]))) = [true]
       /\ map Qred (step_rewards c s1 [5; 5; 0]) = [(1 # 3)%Q; (2 # 3)%Q; 0%Q]
       /\ map Qred (snd (ref_step c s1 [5; 5; 0])) = [(1 # 3)%Q; (2 # 3)%Q; 0%Q]
-      /\ map featen (foods (fst (step c s1 [5; 0; 0]))) = [false]).
+      /\ map featen (foods (fst (step c s1 [5; 0; 0]))) = [false]
+      (* insufficient load with penalty 1/2: every agent pays, raw and normalised (by loaders' level 1 * total level 3) *)
+      /\ (let cp := mkC 5 3 1 1 9 false (1 # 2)%Q false 2 in
+          map Qred (step_rewards cp s1 [5; 0; 0]) = [(- 1 # 2)%Q; (- 1 # 2)%Q; (- 1 # 2)%Q]
+          /\ map Qred (snd (ref_step cp s1 [5; 0; 0])) = [(- 1 # 2)%Q; (- 1 # 2)%Q; (- 1 # 2)%Q])
+      /\ (let cn := mkC 5 3 1 1 9 true (1 # 2)%Q false 2 in
+          map Qred (step_rewards cn s1 [5; 0; 0]) = [(- 1 # 6)%Q; (- 1 # 6)%Q; (- 1 # 6)%Q]
+          /\ map Qred (snd (ref_step cn s1 [5; 0; 0])) = [(- 1 # 6)%Q; (- 1 # 6)%Q; (- 1 # 6)%Q])).
 Proof. vm_compute. repeat split; reflexivity. Qed.
